@@ -1,6 +1,6 @@
 """C07 — comparison of rationals is the numeric order; NaN is unordered."""
 from .gea import Seq, Alt
-from . import p_c01, p_c06
+from . import p_c01, p_c06, p_c03
 from .p_c06 import fn_lang, N
 
 LEVEL = "other"
@@ -51,4 +51,6 @@ RULES = [
     ("C07.CROSS", "partial_cmp: NaN unordered, equality, cross-multiplication orientation", rule_cross),
     ("C07.CANON", "positive-denominator invariant the comparison relies on (optimize/flip sign repair, canonical aggregates)", p_c06.rule_arith),
     ("C07.CALC", "interpreter branch selection from the comparison result", p_c01.rule_calc),
+    ("C07.EMIT", "emitted branch selection: comparison with the count, first arm on Less for ? / Equal for !", p_c03.rule_area),
+    ("C07.EMITSET", "the area emitter has no other comparison template", p_c03.rule_templateset),
 ]
